@@ -402,13 +402,26 @@ def _run_case(ctx, case):
             from job_shop_lib.dispatching import Dispatcher
 
             class AuditingDispatcher(Dispatcher):
+                # (the audit is not re-entered: the library is free to use these very methods
+                # inside its queries)
+                _auditing = False
+
+                def _audit(self):
+                    if self._auditing:
+                        return
+                    self._auditing = True
+                    try:
+                        self.available_operations(); self.current_time(); self.ongoing_operations()
+                        self.completed_operations(); self.unscheduled_operations(); self.raw_ready_operations()
+                    finally:
+                        self._auditing = False
+
                 def is_operation_ready(self, operation):
-                    self.available_operations(); self.current_time(); self.ongoing_operations()
-                    self.completed_operations(); self.unscheduled_operations()
+                    self._audit()
                     return super().is_operation_ready(operation)
 
                 def start_time(self, operation, machine_id):
-                    self.raw_ready_operations()
+                    self._audit()
                     return super().start_time(operation, machine_id)
             instance0 = gen.build(case["instance"])
             run = Run(case["instance"], case.get("filter"), instance=instance0,
